@@ -1974,6 +1974,14 @@ export class OptionalFieldRuntype implements Runtype {
   }
 }
 
+function setOwnProperty(target: any, key: any, value: unknown): void {
+  if (key === "__proto__") {
+    Object.defineProperty(target, key, { value, enumerable: true, configurable: true, writable: true });
+    return;
+  }
+  target[key] = value;
+}
+
 export class ObjectRuntype extends BaseRuntype {
   private properties: Record<string, Runtype>;
   private indexedPropertiesParser: Array<{
@@ -2140,7 +2148,7 @@ export class ObjectRuntype extends BaseRuntype {
     if (ctx.objectKeyOrder === "input") {
       for (const k of inputKeys) {
         if (hasOwn.call(this.properties, k)) {
-          acc[k] = this.properties[k].parseAfterValidation(ctx, input[k]);
+          setOwnProperty(acc, k, this.properties[k].parseAfterValidation(ctx, input[k]));
           continue;
         }
 
@@ -2150,7 +2158,7 @@ export class ObjectRuntype extends BaseRuntype {
           if (isValid) {
             const itemParsed = p.value.parseAfterValidation(ctx, v);
             const keyParsed = p.key.parseAfterValidation(ctx, k);
-            acc[keyParsed as any] = itemParsed;
+            setOwnProperty(acc, keyParsed, itemParsed);
           }
         }
       }
@@ -2163,7 +2171,7 @@ export class ObjectRuntype extends BaseRuntype {
         }
         const v = input[k];
         const itemParsed = this.properties[k].parseAfterValidation(ctx, v);
-        acc[k] = itemParsed;
+        setOwnProperty(acc, k, itemParsed);
       }
 
       if (this.indexedPropertiesParser.length > 0) {
@@ -2175,7 +2183,7 @@ export class ObjectRuntype extends BaseRuntype {
             if (isValid) {
               const itemParsed = p.value.parseAfterValidation(ctx, v);
               const keyParsed = p.key.parseAfterValidation(ctx, k);
-              acc[keyParsed as any] = itemParsed;
+              setOwnProperty(acc, keyParsed, itemParsed);
             }
           }
         }
